@@ -3,6 +3,7 @@ package checks
 import (
 	"fmt"
 	"math/big"
+	"strings"
 
 	"github.com/verily-src/fhirpath-go/fhirpath/system"
 	"github.com/verily-src/fhirpath-go/fhirpath/verifh/core"
@@ -115,8 +116,8 @@ func allColls(nItems, maxLen int) []collID {
 
 func init() {
 	core.Register(&core.Check{
-		ID:   "C05",
-		Rule: "all ordered pairs of the value pool V u E (every System type, every precision/offset form, boundary numbers, scale variants, quantities, FHIR primitives of every kind, complex elements) x 6 operators via %a op %b (and as literals where both have literal syntax), compared with an independent reference comparator where the statement defines the pair and checked for the relational laws on the implementation's own outputs everywhere; all triples per comparability class for transitivity; all ordered pairs of collections of length 0..3/4 over a 7-item alphabet x {=, !=}",
+		ID:          "C05",
+		Rule:        "all ordered pairs of the value pool V u E (every System type, every precision/offset form, boundary numbers, scale variants, quantities, FHIR primitives of every kind, complex elements) x 6 operators via %a op %b (and as literals where both have literal syntax), compared with an independent reference comparator where the statement defines the pair and checked for the relational laws on the implementation's own outputs everywhere; all triples per comparability class for transitivity; all ordered pairs of collections of length 0..3/4 over a 7-item alphabet x {=, !=}",
 		Assumptions: []string{"a DateTime without offset is taken as UTC (FHIRPath leaves the default to the implementation; the process time zone must not matter, C04)", "pairs the statement does not define (cross-type ordering, number vs Quantity) are checked for totality and law-consistency only"},
 		Subs: func(tier string) []core.Sub {
 			pool := c05Pool()
@@ -297,7 +298,47 @@ func init() {
 							r.Fail(fmt.Sprintf("collection|%s|=:%s(want %s)|!=:%s(want %s)", shape, ge, want, gn, negTv(want)), core.W{"a": ids(va), "b": ids(vb), "=": ge, "!=": gn, "want=": want.String()})
 						}
 					}
-					r.NontrivialByConstruction(int64(2 * len(colls)))
+					// two views of ONE collection (prefixes and suffixes that share its array): equal exactly when they hold equal items,
+					// not when they merely start at the same place
+					wantOf := func(x, y []lib.Val) tv {
+						if len(x) == 0 || len(y) == 0 {
+							return tE
+						}
+						if len(x) != len(y) {
+							return tF
+						}
+						for k := range x {
+							if _, _, eq, _, _ := c05Ref(x[k], y[k]); eq != tT {
+								return tF
+							}
+						}
+						return tT
+					}
+					nViews := int64(0)
+					for j := 0; j <= len(va); j++ {
+						for k := 0; k <= len(va); k++ {
+							for _, f := range []struct {
+								src  string
+								x, y []lib.Val
+							}{
+								{fmt.Sprintf("%%a.take(%d) OP %%a.take(%d)", j, k), va[:j], va[:k]},
+								{fmt.Sprintf("%%a.skip(%d) OP %%a.skip(%d)", j, k), va[j:], va[k:]},
+								{fmt.Sprintf("%%a.skip(%d) OP %%a.take(%d)", j, k), va[j:], va[:k]},
+							} {
+								want := wantOf(f.x, f.y)
+								ge := obs3(lib.Run(strings.Replace(f.src, "OP", "=", 1), nil, map[string]any{"a": ca}))
+								gn := obs3(lib.Run(strings.Replace(f.src, "OP", "!=", 1), nil, map[string]any{"a": ca}))
+								r.Eval()
+								r.Eval()
+								nViews += 2
+								r.State(fmt.Sprintf("coll-views|%d,%d", len(f.x), len(f.y)))
+								if ge != want.String() || gn != negTv(want).String() {
+									r.Fail(fmt.Sprintf("collection-views|len=%d,%d|=:%s(want %s)|!=:%s(want %s)", len(f.x), len(f.y), ge, want, gn, negTv(want)), core.W{"a": ids(va), "src": strings.Replace(f.src, "OP", "=", 1), "=": ge, "!=": gn, "want=": want.String()})
+								}
+							}
+						}
+					}
+					r.NontrivialByConstruction(int64(2*len(colls)) + nViews)
 					if r.WantSample() {
 						r.Sample(core.W{"left": ids(va), "right_collections": len(colls)})
 					}
